@@ -294,6 +294,8 @@ class OpsMixin:
             return self.equal(l, r)
         if l is r:
             return True
+        if isinstance(l, AstCls) and isinstance(r, AstCls):
+            return l.cls is r.cls
         if isinstance(l, (Unknown, SVal)) or isinstance(r, (Unknown, SVal)):
             return self.decide(f"is:{self.describe(l)}:{self.describe(r)}")
         return False
@@ -613,6 +615,11 @@ class OpsMixin:
     def getattr(self, v, name, node=None):
         if isinstance(v, Obj):
             return self.obj_getattr(v, name, node)
+        if isinstance(v, PTuple) and name in getattr(v, "names", ()):
+            return v.items[v.names.index(name)]
+        if isinstance(v, PTuple) and getattr(v, "record_cls", None) is not None and v.record_cls.find_method(name) is not None:
+            m = v.record_cls.find_method(name)
+            return Func(m, m.node, None, bound_self=v, module=m.module, defcls=m.cls)
         if isinstance(v, UNode):
             return self.unode_getattr(v, name, node)
         if isinstance(v, TNode):
@@ -680,8 +687,23 @@ class OpsMixin:
             u.meth = name
             return u
         if isinstance(v, TypeOf):
+            u = v.node
             if name == "__name__":
+                if isinstance(u, UNode) and not u.opt and 1 <= len(u.kinds) <= 16:
+                    # a small sum type (operators): the text is used to compute something, split
+                    kinds = sorted(u.kinds)
+                    k = kinds[0] if len(kinds) == 1 else self.decide(f"kind:{u.path()}", kinds)
+                    u.kinds = frozenset([k])
+                    return Cst(k)
                 return Unknown(f"type({self.describe(v.node)}).__name__", typ="str")
+            if name in ("__base__", "__bases__", "__mro__") and isinstance(u, UNode) and u.kinds:
+                import ast as _ast
+
+                bases = {getattr(_ast, k).__base__ for k in u.kinds if hasattr(_ast, k)}
+                if len(bases) == 1 and name == "__base__":
+                    return AstCls(bases.pop())
+                if len(bases) == 1 and name == "__bases__":
+                    return PTuple([AstCls(bases.pop())])
         if isinstance(v, AstCls):
             if name == "__name__":
                 return Cst(v.cls.__name__)
